@@ -1202,6 +1202,18 @@ func (p *Parser) parseBindingElement(decl DeclType) (bindingElement BindingEleme
 }
 
 func (p *Parser) parseBinding(decl DeclType) (binding IBinding) {
+	// binding patterns nest like expressions and count against the same limit
+	p.exprLevel++
+	if NestedExprLimit < p.exprLevel {
+		p.failMessage("too many nested expressions")
+		return
+	}
+	binding = p.parseBindingPattern(decl)
+	p.exprLevel--
+	return
+}
+
+func (p *Parser) parseBindingPattern(decl DeclType) (binding IBinding) {
 	// BindingIdentifier, BindingPattern
 	if p.isIdentifierReference(p.tt) {
 		var ok bool
